@@ -21,6 +21,8 @@ import Driver.SubSpill
 import Driver.Record
 import Driver.SqlCons
 import Driver.AutoInc
+import Driver.Dist
+import Driver.Hnsw
 
 def main (args : List String) : IO UInt32 := do
   let stdin ← IO.getStdin
@@ -43,6 +45,8 @@ def main (args : List String) : IO UInt32 := do
   | ["key"] => Driver.loop stdin stdout () Driver.KeyEnc.step; return 0
   | ["simd"] => Driver.loop stdin stdout Driver.Simd.St.init Driver.Simd.step; return 0
   | ["cal"] => Driver.loop stdin stdout () Driver.Cal.step; return 0
+  | ["hnsw"] => Driver.loop stdin stdout ({} : TurVerif.Hnsw.Index) Driver.Hnsw.step; return 0
+  | ["dist"] => Driver.loop stdin stdout () Driver.Dist.step; return 0
   | ["json"] => Driver.loop stdin stdout () Driver.Json.step; return 0
   | ["rowserde"] => Driver.loop stdin stdout () Driver.RowSerde.step; return 0
   | ["subspill"] => Driver.loop stdin stdout () Driver.SubSpill.step; return 0
